@@ -9,7 +9,6 @@ package main
 
 import (
 	"fmt"
-	"io"
 	"os"
 	"runtime/debug"
 	"strings"
@@ -18,6 +17,7 @@ import (
 
 	"github.com/relex/gotils/logger"
 
+	"slogverif/hutil"
 	"slogverif/seq"
 )
 
@@ -114,6 +114,9 @@ func newSentinels(name, header string) *sentinels {
 		header + "sentinel three: after the connection closed",
 	}}
 }
+
+// bugLog receives the agent's log output; the agent marks "cannot happen" situations (e.g. a 60 s channel timeout) with BUG.
+var bugLog = &hutil.LogCapture{}
 
 type pending struct {
 	id, bad, shown string
@@ -278,11 +281,16 @@ func (h *harness) single(lim limits, st *sentinels, bad string) (string, string)
 		c = s.exchange([]string{st.s[0], bad, st.s[1]}, st.s[2])
 		s.tick(&c)
 	})
+	line := bugLog.FirstBugLine()
+	bugLog.Reset()
 	if site != "" {
 		return "panic:" + site, detail
 	}
 	if k, m := immediate(c, bad); k != "" {
 		return k, m
+	}
+	if line != "" {
+		return "logged-bug", "the agent logged: " + line
 	}
 	return h.delivered(s, base, 1, c, false)
 }
@@ -307,6 +315,12 @@ func (h *harness) step(id string, lim limits, st *sentinels, bad, shown string) 
 	} else {
 		key, msg = immediate(c, bad)
 	}
+	if line := bugLog.FirstBugLine(); line != "" {
+		if key == "" {
+			key, msg = "logged-bug", "the agent logged: "+line
+		}
+	}
+	bugLog.Reset()
 	if key == "" {
 		if c.inDropped == 1 {
 			h.nRejected++
@@ -388,6 +402,10 @@ func (h *harness) flushBatch() {
 		key, msg = h.delivered(s, h.baseline(lim, st), len(batch), total, true)
 		s.judged()
 	}
+	if line := bugLog.FirstBugLine(); line != "" && key == "" {
+		key, msg = "logged-bug", "the agent logged: "+line
+	}
+	bugLog.Reset()
 	if key == "" {
 		if s.cases >= maxCasesPerSession || len(s.in.pipes) > maxPipes || s.gatherE {
 			h.sess = nil
@@ -465,8 +483,8 @@ func enumerate(ctx *seq.Ctx) {
 
 func main() {
 	logger.SetLogLevel(logger.ErrorLevel)
-	logger.SetOutput(io.Discard)
-	debug.SetGCPercent(400) // every flushed chunk allocates a fresh gzip writer (~600 KB); collect less often
+	logger.SetOutput(bugLog) // keeps only lines containing BUG / level=panic / level=fatal
+	debug.SetGCPercent(400)  // every flushed chunk allocates a fresh gzip writer (~600 KB); collect less often
 	if os.Getenv("SEQ_INPUT_DIAG") != "" {
 		diag()
 		return
